@@ -564,6 +564,13 @@ func (m *MediaEngine) updateHeaderExtension(id int, extension string, typ RTPCod
 		return nil
 	}
 
+	// Only the one-byte header extension form (RFC 8285 section 4.2) is
+	// generated, its id range is 1-14 (15 is reserved). An extension the remote
+	// maps outside that range can not be used and is not negotiated.
+	if id < 1 || id > 14 {
+		return nil
+	}
+
 	for _, localExtension := range m.headerExtensions {
 		if localExtension.uri == extension {
 			h := mediaEngineHeaderExtension{uri: extension, allowedDirections: localExtension.allowedDirections}
